@@ -8,6 +8,7 @@ mod emit;
 mod gen;
 mod rng;
 mod show;
+mod srv;
 mod sstream;
 mod suites;
 
@@ -60,6 +61,12 @@ fn main() {
         "c12" => suites::connsuites::c12(&mut rec, &mut rng, thorough),
         "c13" => suites::connsuites::c13(&mut rec, &mut rng, thorough),
         "c14" => suites::connsuites::c14(&mut rec, &mut rng, thorough),
+        "srv-c07" => suites::srvsuites::c07(&mut rec, &mut rng, thorough),
+        "srv-c08" => suites::srvsuites::c08(&mut rec, &mut rng, thorough),
+        "srv-c09" => suites::srvsuites::c09(&mut rec, &mut rng, thorough),
+        "srv-c10" => suites::srvsuites::c10(&mut rec, &mut rng, thorough),
+        "srv-c18" => suites::srvsuites::c18(&mut rec, &mut rng, thorough),
+        "srv-conn" => suites::srvsuites::srv_conn(&mut rec, &mut rng, thorough),
         other => {
             eprintln!("unknown suite {}", other);
             std::process::exit(2);
